@@ -1,6 +1,7 @@
 CONSTANTS
-  Workers <- MCNoWorkers
-  NTs <- MCNTs
+  Workers <- Workers_timed
+  NTs <- NTs_timed
+  ThreadNames <- Threads_timed
   WyFix = FALSE
   AllowSpurious = FALSE
 INIT Init_timed
